@@ -316,7 +316,12 @@ StepFinish(ln) ==
       res == IF Framing(tp) THEN TcpFinish(eps[e], cr.wc, cr.werr, [rc |-> ln.lg[5], e |-> ln.lg[6]])
              ELSE IF Stream(tp) THEN BtcpFinish(eps[e]) ELSE UxFinish(eps[e])
       tag == IF eps[e].bad \/ eps[e].l1 # "ready" THEN "C06.sticky"
-             ELSE IF res.ret = -1 /\ ConnErr(res.err) THEN "C06.errno" ELSE "MM"
+             ELSE IF res.ret = -1 /\ ConnErr(res.err) THEN "C06.errno"
+             \* C03 ("... provided the sender lets the socket finish its outstanding work"): xcm_finish says 0 although,
+             \* by the bytes the lower layer took in every call so far, part of an accepted frame is still in the send buffer
+             ELSE IF Framing(tp) /\ ln.ret = 0 /\ res.ret = -1 /\ res.err = EAGAIN /\ res.ep.sbuf > 0 /\ res.used = cr.wu
+                  THEN "C03.finish_early"
+             ELSE "MM"
   IN Apply(ln, e, res.ep, frames, nrcv, hcs,
            RetChecks(ln, res, tag) \o <<Chk(res.used = cr.wu, UTag(e), res.used, cr.wu)>>
            \o CntChecks(ln, e, res, FALSE))
